@@ -30,7 +30,11 @@ def gen_main(ctx, n, **kw):
     big = ctx.tier == 'thorough'
     for i in range(n):
         r = ctx.rng.random()
-        if r < 0.07 and 'use_internal' not in kw:
+        if r < 0.03 and 'use_internal' not in kw and 'fancy_names' not in kw:
+            # node names built from two tokens and the separators '/' and '_' (pairwise different, but concatenations
+            # of two names coincide: "p" + "_" + "q_p" = "p_q" + "_" + "p")
+            c = gen.gen_case(ctx.rng, max_leaves=8, use_internal=True, fancy_names='tokens', **kw)
+        elif r < 0.07 and 'use_internal' not in kw:
             # species trees with unary nodes (names from the tree: synthesised names repeat at a unary node)
             c = gen.gen_case(ctx.rng, max_leaves=8, unary=True, use_internal=True, **kw)
         elif r < 0.14 and 'nfam' not in kw:
@@ -1801,8 +1805,12 @@ def faults_of(ctx, c, every):
     if not every:
         refs = ctx.rng.sample(refs, min(3, len(refs)))
         grps = ctx.rng.sample(grps, min(3, len(grps)))
+    gene_ids = set(g['id'] for _, gs in c.species for g in gs)
+    xref_vals = sorted(set(v for _, gs in c.species for g in gs for k, v in g.items() if k != 'id' and v not in gene_ids))
     for p in refs:
-        out.append(('dangling geneRef', p, mk(c.species, replace_at(c.groups, p, lambda it: [('g', 'no-such-gene', it[2])]),
+        # the dangling id is a fresh string or the cross-reference id of some declared gene (never a declared gene id)
+        dang = ctx.rng.choice(xref_vals) if xref_vals and ctx.rng.random() < 0.5 else 'no-such-gene'
+        out.append(('dangling geneRef', p, mk(c.species, replace_at(c.groups, p, lambda it, dang=dang: [('g', dang, it[2])]),
                                              'fault:geneRef')))
     for p in grps:
         def empty(it):
@@ -2056,6 +2064,9 @@ def signature(ham, with_profile=True, max_pairs=60, rng=None, deep=False):
             except Exception as e:  # noqa
                 pages.append((K(h), 'error:' + type(e).__name__))
         sig['page_trees'] = sorted(pages, key=repr)
+        # ids, properties and scores of every HOG (text read from the file must not depend on how the file was read)
+        sig['annotations'] = sorted((core.node_key(x), core.meta_tuple(x)) for h in d.top_sx for x in core.all_hogs_sx(h))
+        sig['gene_xrefs'] = sorted((g.unique_id, tuple(sorted(g.get_dict_xref().items()))) for g in ham.get_list_extant_genes())
     return sig
 
 
@@ -2424,6 +2435,16 @@ def check_C13(ctx):
             if r0[0] != 'ok':
                 ctx.violation('consistent input rejected: %s' % r0[1], {'case': case_json(c)})
                 continue
+            if c.groups and ctx.rng.random() < 0.25 and c.groups[0][0] == 'og':
+                # non-ASCII text longer than any read block in the first family (2- and 3-byte characters alternating,
+                # so that some character straddles every block boundary whatever the block size)
+                g0 = c.groups[0]
+                c.groups[0] = ('og', g0[1], g0[2], [('prop', 'comment', '\u00e9\u20ac' * ctx.rng.choice([3000, 5000, 9000]))] + list(g0[3]))
+                ctx.dist['long_non_ascii_annotation'] += 1
+                r0 = impl.load_impl(c)
+                if r0[0] != 'ok':
+                    ctx.violation('consistent input rejected: %s' % r0[1], {'case': case_json(c)})
+                    continue
             base = signature(r0[1], rng=ctx.rng.__class__(1), deep=True)
             named_ok = all(n.name for n in c.tree.nodes())
             nwf = os.path.join(work, 't.nwk')
@@ -2563,8 +2584,20 @@ def check_C14(ctx):
         for v in range(ctx.scale(8, 10)):
             c = gen.spell_plan(ctx.rng, pl, explicit=(v == 0), group_ids=gids, tag='rewrite', p_annot=0.0)
             if v >= 2 and ctx.rng.random() < 0.5:
-                c = gen.Case(c.tree, c.species, relabel(c.groups, lambda s_: 'r' + s_), c.use_internal,
-                             [('r' + i, h) for i, h in c.histories], c.singles, 'rewrite:relabel', c.stats)
+                if ctx.rng.random() < 0.4:
+                    # number-like ids: pairwise different strings, several of them equal as integers
+                    pool = ['1', '01', '001', '1_0', '10', '+1', '0', '00', '-0', '2', '02', '1e1', '1.0', ' 1'][:]
+                    ctx.rng.shuffle(pool)
+                    ids_ = {}
+                    def num(s_, ids_=ids_, pool=pool):
+                        if s_ not in ids_:
+                            ids_[s_] = pool[len(ids_)] if len(ids_) < len(pool) else 'n' + s_
+                        return ids_[s_]
+                    f_ = num
+                else:
+                    f_ = lambda s_: 'r' + s_
+                c = gen.Case(c.tree, c.species, relabel(c.groups, f_), c.use_internal,
+                             [(f_(i), h) for i, h in c.histories], c.singles, 'rewrite:relabel', c.stats)
             if v >= 2 and ctx.rng.random() < 0.5:
                 c = gen.Case(c.tree, c.species, toggle_labels(c.groups, ctx.rng, None), c.use_internal,
                              c.histories, c.singles, c.tag + ':labels', c.stats)
